@@ -89,7 +89,34 @@ def corpus():
           "insts": [{"n": "arr", "array": 3, "of": {"k": "module", "name": "HB"}, "conns": [["bp", {"k": "noconn"}]]},
                     {"n": "brr", "array": 2, "of": {"k": "module", "name": "HB"}, "conns": [["bp", {"k": "noconn", "name": "open"}]]},
                     {"n": "one", "of": {"k": "module", "name": "HB"}, "conns": [["bp", {"k": "noconn"}]]}]}]}
-    return [{"design": d8, "style": "proc"}, {"design": d8, "style": "class"}, {"design": d7, "style": "proc"}, {"design": d7, "style": "class"}, {"design": d6, "style": "proc"}, {"design": d6, "style": "gen"},
+    # … the same with a nested bundle type (the unconnected members below a sub-bundle want their own nets as well), and a bundle whose
+    # sub-bundles are called `tx` and `tx_aux` — one name a prefix of the other, the same members in both — referred to one at a time
+    inner_t = {"sigs": [lf("p", 1), lf("n", 2)], "subs": []}
+    link = {"name": "Link", "tree": {"sigs": [lf("ck", 1)], "subs": [{"n": "tx", "flip": False, "role": None, "of": inner_t},
+                                                                      {"n": "tx_aux", "flip": False, "role": None, "of": inner_t}]}}
+    pairb = {"name": "PairB", "tree": copy.deepcopy(inner_t)}
+    E12 = {"k": "leaf", "kind": ".E12", "ports": [{"n": "a", "w": 1}, {"n": "b", "w": 2}], "params": [], "py": {"k": "ext", "name": "E12"}}
+    hl = {"name": "HL", "sigs": [], "bundles": [{"n": "lp", "of": "Link", "port": True}],
+          "insts": [{"n": "e1", "of": copy.deepcopy(E12), "conns": [["a", {"k": "bref", "root": "lp", "path": ["tx", "p"]}], ["b", {"k": "bref", "root": "lp", "path": ["tx", "n"]}]]},
+                    {"n": "e2", "of": copy.deepcopy(E12), "conns": [["a", {"k": "bref", "root": "lp", "path": ["tx_aux", "p"]}], ["b", {"k": "bref", "root": "lp", "path": ["tx_aux", "n"]}]]},
+                    {"n": "e3", "of": copy.deepcopy(E12), "conns": [["a", {"k": "bref", "root": "lp", "path": ["ck"]}], ["b", {"k": "bref", "root": "lp", "path": ["tx", "n"]}]]}]}
+    hp = {"name": "HP", "sigs": [], "bundles": [{"n": "pp", "of": "PairB", "port": True}],
+          "insts": [{"n": "e1", "of": copy.deepcopy(E12), "conns": [["a", {"k": "bref", "root": "pp", "path": ["p"]}], ["b", {"k": "bref", "root": "pp", "path": ["n"]}]]}]}
+    d9 = {"bundles": [link, pairb], "top": "Top", "modules": [hl, hp, {"name": "Top", "sigs": [], "bundles": [{"n": "lk", "of": "Link", "port": False}],
+          "insts": [{"n": "arr", "array": 3, "of": {"k": "module", "name": "HL"}, "conns": [["lp", {"k": "noconn"}]]},
+                    {"n": "crr", "array": 2, "of": {"k": "module", "name": "HL"}, "conns": [["lp", {"k": "noconn", "name": "open"}]]},
+                    {"n": "h0", "of": {"k": "module", "name": "HL"}, "conns": [["lp", {"k": "bundle", "n": "lk"}]]},
+                    {"n": "t0", "of": {"k": "module", "name": "HP"}, "conns": [["pp", {"k": "bref", "root": "lk", "path": ["tx"]}]]},
+                    {"n": "t1", "of": {"k": "module", "name": "HP"}, "conns": [["pp", {"k": "bref", "root": "lk", "path": ["tx_aux"]}]]}]}]}
+    # a port on a bundle reference, referred to by other ports directly, through a slice and inside a concatenation
+    E12b = copy.deepcopy(E12)
+    d10 = {"bundles": [pairb], "top": "Top", "modules": [{"name": "Top", "sigs": [{"n": "g", "w": 1, "port": True, "dir": "none"}], "bundles": [{"n": "pb", "of": "PairB", "port": False}],
+           "insts": [{"n": "i4", "of": copy.deepcopy(E12b), "conns": [["a", {"k": "bref", "root": "pb", "path": ["p"]}], ["b", {"k": "bref", "root": "pb", "path": ["n"]}]]},
+                     {"n": "i5", "of": copy.deepcopy(E12b), "conns": [["a", {"k": "slice", "p": {"k": "pref", "inst": "i4", "port": "b"}, "i": {"s": 1, "e": 2, "st": None}}],
+                                                                      ["b", {"k": "pref", "inst": "i4", "port": "b"}]]},
+                     {"n": "i6", "of": copy.deepcopy(E12b), "conns": [["a", {"k": "pref", "inst": "i4", "port": "a"}],
+                                                                      ["b", {"k": "concat", "ps": [{"k": "pref", "inst": "i4", "port": "a"}, {"k": "sig", "n": "g"}]}]]}]}]}
+    return [{"design": d10, "style": "proc"}, {"design": d10, "style": "class"}, {"design": d9, "style": "proc"}, {"design": d9, "style": "class"}, {"design": d8, "style": "proc"}, {"design": d8, "style": "class"}, {"design": d7, "style": "proc"}, {"design": d7, "style": "class"}, {"design": d6, "style": "proc"}, {"design": d6, "style": "gen"},
             {"design": d1, "style": "proc"}, {"design": d2, "style": "proc"}, {"design": d3, "style": "proc"}, {"design": d3, "style": "class"},
             {"design": d4, "style": "proc"}, {"design": d4, "style": "gen"}, {"design": d5, "style": "proc"}, {"design": d5, "style": "class"}]
 
@@ -697,7 +724,11 @@ def gen_bc(rng):
     (next to other members); signals; and what is written onto the port: b0, a reference to b1.inner, or an anonymous bundle built
     member by member (scalars, slices, references to leaves, bundle instances of a sub-bundle's type, references to sub-bundles,
     nested anonymous bundles), fields in any order — sometimes with a member left out or a whole bundle where a signal is needed."""
-    T = _bc_tree(rng, rng.choice([0, 1, 1, 2]), ["x", "y", "z", "u", "v"])
+    while True:
+        T = _bc_tree(rng, rng.choice([0, 1, 1, 2]), rng.choice([["x", "y", "z", "u", "v"], ["x", "x_y", "x_", "y", "y_x"], ["tx", "tx_aux", "tx_", "aux", "t"]]))
+        joined = ["_".join(pth) for pth, _ in _bc_leaves(T)]
+        if len(set(joined)) == len(joined):
+            break  # (two leaf paths that join to one name get a name invented for them: C05's business, not this stream's)
     wrap = {"sigs": [{"n": "k", "w": 1, "port": False, "dir": "none", "src": None, "dest": None}],
             "subs": [{"n": "inner", "flip": rng.random() < 0.5, "role": None, "of": T}]}
     subtypes = {}   # a bundle instance per sub-bundle type of T, for use as a member
